@@ -17,7 +17,7 @@ PROPS = {
         "level_note": "Trusted: Lean kernel; regex and log crates; the hand-written Spec model is validated against the code only on the generated "
                       "cases (bounded, seeded). Quantifier restricted to specs naming each module at most once (as the property states).",
         "correspondence": "Spec model (parse/level_sort/enabled/route/enabledQuery/gate) vs LogSpecification + boxed FlexiLogger from Logger::build()",
-        "rule": "run-time change to a specification differing only in the text filter, and back (1/3 of the cases); seeded structured specs (builder and parsed strings; names that are prefixes/equal length/level words/non-ASCII) x "
+        "rule": "`{_Default}` targets of loggers WITHOUT additional writers (judged on the module path, oracle brace-default-iff-enabled); run-time change to a specification differing only in the text filter, and back (1/3 of the cases); seeded structured specs (builder and parsed strings; names that are prefixes/equal length/level words/non-ASCII) x "
                 "grid of derived targets x 5 levels x messages vs regexes; a case is non-trivial if at least one decision was "
                 "checked against the declarative longest-prefix oracle; distinct = distinct op sequences",
         "trusted": SPEC_TRUST,
@@ -71,7 +71,7 @@ PROPS = {
         "level_note": "Trusted: RwLock semantics; thread parking via the cfg-guarded hook points 'spec.enter' (before the lock is asked for) and 'spec.updated' (inside); 'blocked' is observed with a 60 ms timeout. "
                       "push/pop are modelled as a layer over the lock protocol (Model/Spec PState: a push READS the active specification under the read lock, so it waits for a change in progress, saves it on the stack of its handle clone and is then an ordinary change; a pop is an ordinary change to the specification saved last). Props/C12Push: every run of that layer is a run of the lock protocol (prun_projects), hence the consistency theorem holds for every interleaving of set/push/pop calls (push_pop_consistent), and the specification active in the end is the initial one or one named by a set or push (push_pop_from_submitted). Schedules with a waiting writer AND a waiting reader at the same release are not generated (which of them the RwLock serves first is not specified).",
         "correspondence": "Spec.CState/PState (lock model, push/pop layer) vs real threads parked inside WritersHandle::set_new_spec, incl. push_temp_spec/pop_temp_spec on kept handle clones",
-        "rule": "enumeration of interleavings (start_i before finish_i) of 2 and 3 calls with specs of different maximum levels, plus calls parked before the lock while another runs from start to end with coinciding maximum levels; plus 30 (thorough: 300 per seed) push/pop histories on handle clones (push arriving during a change, change arriving during a push, two clones popping in either order); plus free-running races; non-trivial = all cases (quiescence oracle evaluated)",
+        "rule": "parked schedules with text filters on either call (the specification in force at the end applies as a whole, text filter included); enumeration of interleavings (start_i before finish_i) of 2 and 3 calls with specs of different maximum levels, plus calls parked before the lock while another runs from start to end with coinciding maximum levels; plus 30 (thorough: 300 per seed) push/pop histories on handle clones (push arriving during a change, change arriving during a push, two clones popping in either order); plus free-running races; non-trivial = all cases (quiescence oracle evaluated)",
         "shrink_secs": 25,
         "trusted": SPEC_TRUST,
         "shards": 2,
@@ -86,13 +86,13 @@ PROPS = {
         "level_note": "Trusted: chrono's rendering of the timestamp text (passed to the model as data), serde_json/nu_ansi_term escaping rules as modelled "
                       "(validated byte-exactly), kv Debug rendering restricted to printable ASCII + common escapes.",
         "correspondence": "Fmt model vs flexi_logger::{default,opt,detailed,with_thread,colored_*,json}_format through FileLogWriter/Logger",
-        "rule": "seeded records (all present/absent field combinations, messages with quotes/backslashes/control/non-ASCII/multi-line, kv pairs) x 9 formats x LF/CRLF x worker processes in UTC / non-UTC zones / with DeferredNow::force_utc(); same-format output pairs through the primary writer's fan-out (OUTS) and through an additional writer plus the default channel (OUTSW, target {Sec,_Default}); recursive logging with CRLF; "
+        "rule": "12 BUFFRAME runs (the in-memory log target as an output: messages ending in line breaks keep their framing line ending); seeded records (all present/absent field combinations, messages with quotes/backslashes/control/non-ASCII/multi-line, kv pairs) x 9 formats x LF/CRLF x worker processes in UTC / non-UTC zones / with DeferredNow::force_utc(); same-format output pairs through the primary writer's fan-out (OUTS) and through an additional writer plus the default channel (OUTSW, target {Sec,_Default}); recursive logging with CRLF; "
                 "non-trivial = at least one formatted line compared",
         "trusted": ["chrono strftime", "serde_json string escaping", "nu_ansi_term Style::paint"],
         "shards": 4,
     },
     "C13": {
-        "level_text": "Kernel-checked theorems on the routing model: for a brace list of distinct names every registered writer named receives the record "
+        "level_text": "Companion Props/C13Syslog over Model/Syslog: pri_decodes (PRI = facility*8 + severity), severity_monotone, severity_not_injective, ceiling_on_levels vs ceiling_on_severities_violation_witness, the header layouts end with the message verbatim. Kernel-checked theorems on the routing model: for a brace list of distinct names every registered writer named receives the record "
                       "exactly once and no other writer anything, independent of the specification (named_writer_exactly_once, unnamed_writer_nothing, "
                       "deliveries_independent_of_spec); the default channel iff _Default is listed and the spec enables the MODULE (brace_default_iff); unknown "
                       "names are reported and do not disturb the others; provided writers emit iff level <= ceiling (ceiling_rule); the complete 7x5 duplication "
@@ -101,7 +101,7 @@ PROPS = {
         "level_note": "A name repeated inside one brace list is delivered once per occurrence (documented reading: the statement quantifies over lists of distinct "
                       "names). One genuine defect repaired (fix 5bf7827: SyslogWriter ignored max_log_level). Custom LogWriters decide themselves what they emit.",
         "correspondence": "Spec.route/emitted/dupDecision vs FlexiLogger::log with additional writers (recording, FileLogWriter, SyslogWriter/UDP) and MultiWriter duplication (child process)",
-        "rule": "seeded brace lists over registered/unknown/_Default/empty names (mostly distinct) x 5 levels x specs x writer kinds and ceilings (also: no additional writer at all) x optional forwarding LogLineFilter; duplication cases: "
+        "rule": "48 SYSLOGLINE runs (a real SyslogWriter over UDP loopback: every facility x level x RFC 5424 / RFC 3164, messages containing the header's separators; PRI and message compared with Model/Syslog); seeded brace lists over registered/unknown/_Default/empty names (mostly distinct) x 5 levels x specs x writer kinds and ceilings (also: no additional writer at all) x optional forwarding LogLineFilter; duplication cases: "
                 "all 7 Duplicate values for stderr and stdout with run-time adaptation; non-trivial = a delivery or duplication decision was checked by the oracle",
         "trusted": SPEC_TRUST + ["loopback UDP delivers a datagram before the next recv"],
         "shards": 8,
@@ -148,7 +148,7 @@ PROPS = {
         "assumptions": ["monotone local clock"],
     },
     "C15": {
-        "level_text": "Kernel-checked: the files after flush/shutdown do not depend on the buffer capacity (contents_independent_of_write_mode, all namings/criteria via "
+        "level_text": "public_modes_same_files (any two public WriteMode variants, flusher ticks anywhere), logger_split_same_cfg; Kernel-checked: the files after flush/shutdown do not depend on the buffer capacity (contents_independent_of_write_mode, all namings/criteria via "
                       "refines_all); Conc.shutdown_drains gives FIFO replay for the async channel. Differential check of the same histories under direct, "
                       "BufferDontFlush(cap), BufferAndFlush(cap) and Async{pool,msg} against the one model; raw byte chunks through io::Write. "
                       "Companion Props/C15Flusher over Model/WMode (src/write_mode.rs: public variants, effective mode, without_flushing, buffer size, flush interval): "
@@ -204,13 +204,13 @@ PROPS = {
                       "repaired (fix commits 9620a31, 0f937be, 9c1a91c, 6ba14c4, index overflow); one hang repaired, too (fix 54ef5cd: recursion + buffered stdout); a sixth panic found in the fourth seeded round and repaired (fix 6e6ba35: the log directory vanishes while the logger runs). "
                       "Out of the random domain (documented): suffix 'gz', exhausted index space (>= 2^32-1).",
         "correspondence": "Spec.route/enabledQuery/parse vs the real logger on nasty inputs; robustness histories: only 'the call returns' is predicted",
-        "rule": "half records/spec strings (22 nasty targets incl. 5000-char and 100 KB messages, arbitrary Unicode spec strings), half file-name configurations x "
+        "rule": "a logger started with a not-yet-existing specfile for parsed specifications incl. the empty ones (STARTSPECFILE, under catch_unwind); half records/spec strings (22 nasty targets incl. 5000-char and 100 KB messages, arbitrary Unicode spec strings), half file-name configurations x "
                 "directory contents (24 nasty name fragments) x histories with rotations and restarts, in a quarter of which the log directory itself vanishes for a while (RMDIR … MKDIR); 40 (thorough: 400 per seed) runs of the in-memory log target (log_to_buffer) with record lengths around and above its budget, in a child under a watchdog, compared with Model/Buf; 32 recursion runs (nesting depth 1, 2, 3, 5; file, stdout and stderr, direct, buffered and async); non-trivial = all executed cases",
         "trusted": ["catch_unwind observes every panic of the calling thread", "watchdog 4 s + 8 s re-run for hang detection"],
         "shards": 8,
     },
     "C18": {
-        "level_text": "Kernel-checked: (reopen, non-rotating writer, every buffer capacity) for every history of writes/flushes/external renames/reopen_output the files "
+        "level_text": "Companion Props/C18ResetSame: reset_flw onto the SAME family = flush + fresh Initial state on the same directory (resetSame_state), the directory the new state starts on holds every byte logged so far, the buffered tail included (resetSame_keeps_everything, resetSame_stream). Kernel-checked: (reopen, non-rotating writer, every buffer capacity) for every history of writes/flushes/external renames/reopen_output the files "
                       "— moved files in the order they were moved, then the file at the original path — hold exactly the written bytes, grouped on record boundaries; the "
                       "not-yet-flushed tail lands in the OLD file (reopen_flushes_into_old_file); after an external delete exactly the deleted file and what was written "
                       "before reopen_output are lost (remove_then_reopen). (reset_flw, all namings before and after) everything logged before a reset remains in the old "
@@ -226,7 +226,7 @@ PROPS = {
         "trusted": ["OS: an open descriptor follows a renamed file; bytes written to an unlinked file are gone"],
     },
     "C19": {
-        "level_text": "Kernel-checked refinement WITH faults: for every naming scheme/criterion/capacity and every history in which ANY open, rename or write may fail "
+        "level_text": "Companion Props/C19ErrChan over Model/ErrChan: reported_on_configured_channel, only_devNull_drops, fallback_keeps_reports; failed compressions: failed_compression_step, failed_compression_keeps_original (the state 'original gone, .gz empty or partial' is unreachable for every fault assignment). Kernel-checked refinement WITH faults: for every naming scheme/criterion/capacity and every history in which ANY open, rename or write may fail "
                       "(the Faults argument of every operation is universally quantified), the files hold exactly the records whose own write was performed, in order "
                       "(faults_stream; no_loss_monotone: nothing written earlier is ever lost); a write that was not performed and a due rotation that did not complete "
                       "are reported (result err + error event write/logfile; failures_reported), no faults = no errors; the state stays usable under an invariant preserved "
@@ -237,7 +237,7 @@ PROPS = {
         "level_note": "Fault points emulate 'the call returned Err(e)' in front of the real call (PermissionDenied); partial effects of a failing OS call itself (short write, "
                       "half-created gz) are not modelled. Items 1-4 are proved without cleanup; with cleanup the loop-level facts + differential check.",
         "correspondence": "Flw model with the Faults argument vs the real writer with the fault hook (open/rename/write/remove/gz_create at the n-th call of an operation)",
-        "rule": "seeded histories with a fault on ~20% of the writes and 25% of forced rotations, kinds open/rename/write/remove(0,1)/gz, all namings, cleanup variants; "
+        "rule": "fault kinds gzcopy / gzfinish (a compression that fails after the .gz was created: an empty resp. complete .gz next to the original); 15 ERRCHAN child runs: every ErrorChannel variant (StdErr, StdOut, File, an unopenable File, DevNull) x failing write/rename/open, reference = the same run with an openable error file; seeded histories with a fault on ~20% of the writes and 25% of forced rotations, kinds open/rename/write/remove(0,1)/gz, all namings, cleanup variants; "
                 "ERRS after every write; non-trivial = rotation happened",
         "trusted": ["fault hook placement (add-only, in front of the fallible call)"],
     },
@@ -298,7 +298,7 @@ PROPS = {
                       "behaviour identical to the run without them).",
         "level_note": "chrono's verdict on a timestamp infix is a parameter (tsOk) supplied by the harness. Two defects repaired (0f937be, 65723b0), one known finding (C14-extra-dots).",
         "correspondence": "Names.existingLogFiles/acceptFile vs FileLogWriter::existing_log_files on directories with near-miss names; Flw model (which ignores foreign files) vs the real writer with foreign files present",
-        "rule": "near-miss generator (43 mutations of family names, those the code's own suffix test accepts excluded as known finding: longer/shorter basename, missing separator, other discriminant incl. infix-like, other suffix, trailing extension, "
+        "rule": "sibling discriminants / basenames of EQUAL length among the near misses (another family whose fixed name part differs only in its text); near-miss generator (43 mutations of family names, those the code's own suffix test accepts excluded as known finding: longer/shorter basename, missing separator, other discriminant incl. infix-like, other suffix, trailing extension, "
                 "infix garbage, too few digits, multi-byte, impossible dates, restart markers without number, sub-directory, what lenient number/date parsers accept (sign, blank, non-ASCII digits, unpadded fields), extensions that merely end with the suffix letters) x namings x cleanup x restarts; non-trivial = rotation/restart or listing compared",
         "trusted": ["chrono parse_from_str (tsOk)"],
     },
